@@ -140,6 +140,33 @@ class GenModel(object):
             return self.build("Sphere", [c], "ConvexPolyhedron", **kw)
         return self.build(which, [c, axis], "ConvexPolygon" if which == "Circle" else "ConvexPolyhedron", **kw)
 
+    def ensure(self, t):
+        """id of some object of type t, building one (from shared leaves) if needed"""
+        r = self.rng
+        have = self.ids(lambda e: e["t"] == t and e["kind"] in ("leaf", "composite", "copy"))
+        if have and r.random() < 0.7:
+            return r.choice(have)
+        P = self.ids(lambda e: e["kind"] == "leaf" and e["t"] == "Point")
+        while len(P) < 2:
+            P.append(self.leaf("P"))
+        if t == "Point":
+            return r.choice(P)
+        if t == "Plane":
+            return self.private("Plane")
+        if t in ("Line", "Segment", "HalfLine"):
+            a, b = r.sample(P, 2)
+            if self.ent[a]["c"] == self.ent[b]["c"]:
+                b = self.leaf("P", X.add(self.ent[a]["c"], X.rnd_dir(r, 1)))
+            return self.build({"Line": "Line_PP", "Segment": "Segment_PP", "HalfLine": "HalfLine_PP"}[t], [a, b], t)
+        if t == "ConvexPolygon":
+            g = self.polygon_group()
+            return self.build("Polygon", list(g["leaves"]), "ConvexPolygon", container="tuple")
+        if t == "ConvexPolyhedron":
+            if have:
+                return r.choice(have)
+            return self.body_group()["body"]
+        return None
+
     def polygon_group(self):
         r = self.rng
         u, w = X.rnd_frame2(r) if r.random() < 0.6 else r.sample(list(X.AXES), 2)
@@ -210,7 +237,20 @@ class GenModel(object):
             polys = self.ids(lambda e: e["t"] == "ConvexPolygon" and e["kind"] == "composite")
             if polys:
                 return self.build("Neg", [r.choice(polys)], "ConvexPolygon")
-        if choice < 0.94:
+        if choice < 0.90:
+            polys = self.ids(lambda e: e["t"] == "ConvexPolygon" and e["kind"] in ("composite", "copy"))
+            if polys:  # a polygon built from the internal Points of another polygon
+                return self.build("Polygon_of_points", [r.choice(polys)], "ConvexPolygon", reverse=r.random() < 0.3)
+        if choice < 0.915:
+            phs = self.ids(lambda e: e["t"] == "ConvexPolyhedron" and e["kind"] in ("composite", "copy"))
+            if phs:  # a polyhedron built from the internal faces of another polyhedron
+                return self.build("Polyhedron_of_faces", [r.choice(phs)], "ConvexPolyhedron")
+        if choice < 0.93 and len(P) >= 2:
+            a, b = r.sample(P, 2)
+            return self.build("Vector_PP", [a, b], "Vector")
+        if choice < 0.94 and Vv:
+            return self.build("Point_of_vector", [r.choice(Vv)], "Point")
+        if choice < 0.97:
             return self.private("Plane")
         return self.private("Line")
 
@@ -303,10 +343,14 @@ class GenModel(object):
             self.ent[i]["c"] = X.add(self.ent[i]["c"], v)
 
 
+CELLS = [(q, a, b) for q in PAIR_Q for a in GEO for b in GEO]
+
+
 def generate(rng, k, tier="quick"):
     m = GenModel(rng)
     scen = k % 8
     heavy = scen in (2, 6)
+    focus = CELLS[(k // 8) % len(CELLS)]  # every ordered pair x query gets its share of histories
     for _ in range(rng.randint(2, 4)):
         m.leaf("P")
     for _ in range(rng.randint(1, 3)):
@@ -319,10 +363,24 @@ def generate(rng, k, tier="quick"):
     if scen in (3, 7):
         m.leaf("V")
         m.leaf("V")
-    target_len = len(m.ops) + rng.randint(10, 24 if heavy else 40)
+    long = tier == "thorough" and rng.random() < 0.5
+    target_len = len(m.ops) + rng.randint(10, 24 if heavy else 40) + (20 if long else 0)
+    focus_at = len(m.ops) + rng.randint(2, 10)
     guard = 0
     while len(m.ops) < target_len and guard < 200:
         guard += 1
+        if focus is not None and len(m.ops) >= focus_at:
+            q, ta, tb = focus
+            focus = None
+            a, b = m.ensure(ta), m.ensure(tb)
+            if a and b:
+                m.query(a=a, b=b, q=q)
+                tgt = rng.choice([a, b])
+                src = [x for x in m.ent[tgt].get("from", []) if m.ent.get(x, {}).get("mut")]
+                m.mutate(rng.choice(src) if src and rng.random() < 0.5 else tgt)
+                m.ops.append({"op": "QUERY", "qid": m.nid("q"), "q": q, "a": a, "b": b})
+                m.queries.append(m.ops[-1]["qid"])
+            continue
         r = rng.random()
         if r < 0.03 and len(m.ent) < 12:
             m.aux_query()
@@ -489,6 +547,14 @@ def _ctor(op):
         return G.Parallelepiped
     if c == "Neg":
         return lambda p: -p
+    if c == "Polygon_of_points":
+        return lambda p: G.ConvexPolygon(p.points, reverse=bool(op.get("reverse")))
+    if c == "Polyhedron_of_faces":
+        return lambda ph: G.ConvexPolyhedron(ph.convex_polygons)
+    if c == "Vector_PP":
+        return lambda a, b: G.Vector(a, b)
+    if c == "Point_of_vector":
+        return lambda v: G.Point(v)
     rad, n = float(F(op.get("radius", "1"))), op.get("n", 4)
     if c == "Circle":
         return lambda ctr, nv: G.Circle(ctr, nv, rad, n)
